@@ -12,14 +12,14 @@ import (
 // C03: only shareable responses are stored; labels are truthful.
 
 type c03Case struct {
-	Method  string      `json:"method"`
-	URI     string      `json:"uri"`
-	Status  int         `json:"status"`
-	Header  [][2]string `json:"upstream_header"`
-	Burst   int         `json:"burst"`
-	Class   string      `json:"class"`
-	Share   string      `json:"reference_verdict"` // shareable | unshareable | ambiguous
-	Reason  string      `json:"reason"`
+	Method string      `json:"method"`
+	URI    string      `json:"uri"`
+	Status int         `json:"status"`
+	Header [][2]string `json:"upstream_header"`
+	Burst  int         `json:"burst"`
+	Class  string      `json:"class"`
+	Share  string      `json:"reference_verdict"` // shareable | unshareable | ambiguous
+	Reason string      `json:"reason"`
 }
 
 func randCase(rnd *rand.Rand, s string) string {
@@ -276,7 +276,9 @@ func c03Run(r *hx.Run, w *W, c c03Case) {
 	}
 	r.Eval(1)
 	r.Add("class_"+c.Class, 1)
-	wit := func() interface{} { return map[string]interface{}{"results": briefs(all), "upstream_contacts": len(fetches)} }
+	wit := func() interface{} {
+		return map[string]interface{}{"results": briefs(all), "upstream_contacts": len(fetches)}
+	}
 	// label truthfulness / exactly once
 	for _, res := range all {
 		if res.Err != nil {
